@@ -1112,6 +1112,19 @@ func (g *gen) multiDots(k fragKind) *pattern {
 		sb.WriteString(")\n")
 		return &pattern{kind: kStmts, frag: sb.String(), holes: holes}
 	}
+	if g.chance(0.3) {
+		// a wide pattern: many tokens are recorded before the repeated metavariable comes up again
+		n := 20 + g.r.Intn(50)
+		sb.WriteString(g.pick(funcNames...) + "(")
+		for i := 0; i < n; i++ {
+			sb.WriteString(fmt.Sprintf("w%d, ", i))
+		}
+		add(hExpr, e, "", "", false)
+		sb.WriteString(" " + g.pick("-", "+", "==", "*") + " ")
+		add(hExpr, e, "", "", false)
+		sb.WriteString(")\n")
+		return &pattern{kind: kExpr, frag: sb.String(), holes: holes}
+	}
 	sb.WriteString(g.pick(funcNames...) + "(")
 	add(hDots, simple(), "args", ", ", false)
 	sb.WriteString(", ")
@@ -1311,6 +1324,11 @@ func (g *gen) posOnlyCopy(t string) (string, bool) {
 // nearCopy returns code that differs from t in a single token, preferring the
 // tokens go/ast represents only by the validity of a position.
 func (g *gen) nearCopy(t string) string {
+	if g.chance(0.25) {
+		if m := g.structMutate(t); m != t && parses("package p\nvar _ = "+m) {
+			return m
+		}
+	}
 	if g.chance(0.6) {
 		if m, ok := g.posOnlyCopy(t); ok {
 			return m
@@ -1693,6 +1711,34 @@ func genEngineCases(seed int64, n int, mode string) []Case {
 				frags = append(frags, inst)
 			case 2: // inconsistent bindings
 				frags = append(frags, g.instance(p, 0.7))
+				if g.chance(0.3) {
+					// every elision stands for nothing and one explicit element is missing: too short to be an instance
+					texts := make([]string, len(p.holes))
+					short := false
+					for hi, h := range p.holes {
+						if h.kind == hDots {
+							texts[hi] = emptyRun
+						} else if !short && (strings.HasSuffix(p.frag[:h.start], ", ") || strings.HasPrefix(p.frag[h.end:], ", ")) {
+							texts[hi] = emptyRun
+							short = true
+						} else {
+							texts[hi] = h.text
+						}
+					}
+					if short {
+						hs := make([]hole, len(p.holes))
+						copy(hs, p.holes)
+						for hi := range hs {
+							if texts[hi] == emptyRun && hs[hi].kind != hDots {
+								hs[hi].sep = ", "
+							}
+						}
+						if m := fill(p.frag, hs, texts); parses(wrapForParse(p.kind, m)) {
+							frags = append(frags, m)
+							note += " tooshort"
+						}
+					}
+				}
 			default:
 				frags = append(frags, g.instance(p, 0))
 			}
